@@ -1,0 +1,12 @@
+//go:build verif
+
+package ingest
+
+import "diagonal.works/b6"
+
+// VerifNewOverlayFeatures exposes the unexported merge iterator behind
+// OverlayWorld.FindFeatures and MutableOverlayWorld.FindFeatures to the
+// verification harness (/verif, property C16).
+func VerifNewOverlayFeatures(base b6.Features, overlay b6.Features, filter b6.FeaturesByID) b6.Features {
+	return newOverlayFeatures(base, overlay, filter)
+}
